@@ -156,9 +156,9 @@ func BindAny(source, target am.Api) (string, error) {
 	fn := func(e *am.Event) {
 		tx := e.Transition()
 
-		// set if not set
+		// set if not the same
 		states := tx.TargetStates()
-		if target.Is(states) {
+		if am.StatesEqual(target.ActiveStates(nil), states) {
 			return
 		}
 		target.Set(states, e.Args)
